@@ -126,7 +126,11 @@ fn build(rules: &[String], optimize: bool, policy: u8) -> Engine {
 pub fn answer(e: &Engine, q: &Q) -> String {
     match q {
         Q::Net(u, s, t) => match Request::new(u, s, t) {
-            Ok(rq) => ask(e, &rq).digest(),
+            Ok(rq) => {
+                // plain entry point, plus the multi-engine one as a later engine in a chain sees it
+                let s2 = e.check_network_request_subset(&rq, true, false);
+                format!("{}|chained:{}{}{:?}{:?}{}", ask(e, &rq).digest(), s2.matched as u8, s2.important as u8, s2.redirect, s2.rewritten_url, s2.exception.is_some() as u8)
+            }
             Err(_) => "unparsable".to_string(),
         },
         Q::Cos(u) => {
@@ -149,6 +153,11 @@ fn case_material(seed: u64, idx: u64, nq: usize) -> (Vec<String>, Vec<Q>, bool, 
     let mut rules = gen_engine_rules(&mut r);
     let mut qs = gen_queries(&mut r, &rules, nq);
     let mut optimize = r.chance(1, 2);
+    if idx % 10 == 3 {
+        // a supplementary list without exceptions or important rules (redirects, rewrites and
+        // plain blocks only)
+        rules.retain(|l| !l.starts_with("@@") && !l.contains("important"));
+    }
     // (every 40th differential case; every 160th concurrent batch, which is 400 queries x N threads)
     if (nq <= 24 && idx % 40 == 13) || (nq > 24 && nq >= 400 && idx % 160 == 13) {
         // heavy case: hundreds of near-twin wildcard rules that share their only indexable token
